@@ -326,6 +326,15 @@ h!(q_union_eq, 27, {
     kani::cover!(x == y && !same && !first, "equal values, distinct allocations, second arm");
 });
 
+h!(q_union_mixed_variants, 27, {
+    // different variants hold different things: never equal, always unequal - `==` and `!=` stay each other's negation
+    let (x, y): (u8, u8) = kani::any();
+    let ua = ArcUnion::<u8, u8>::from_first(Arc::new(x));
+    let ub = ArcUnion::<u8, u8>::from_second(Arc::new(y));
+    assert!(!(ua == ub) && (ua != ub) && !(ub == ua) && (ub != ua), "== / != on unions of different variants are not each other's negation");
+    kani::cover!(x == y);
+});
+
 // ------------------------------------------------------------------ formatting
 static mut FMT_CALLS: usize = 0;
 static mut FMT_ADDR: usize = 0;
